@@ -595,9 +595,13 @@ for _alg in ("aegis128l", "aegis256"):
                 _rr = 32 if _alg == "aegis128l" else 16
                 _q = [x for x in _q if (x["mlen"], x["adlen"]) in ((_rr + 1, 5), (0, 0), (2 * _rr + 1, 0), (3, _rr + 1))
                       and x["form"] in ("enc_detached", "dec", "dec_forged_tag", "enc_inplace", "dec_inplace")]
+            _t = [x for x in _aegis_shapes(_alg, "thorough", _impl) if x["form"] in _forms and x not in _q]
+            if _be == "soft":
+                # 30-60 s per shape: every third shape of the AES-NI grid plus everything that crosses a rate boundary
+                _rr = 32 if _alg == "aegis128l" else 16
+                _t = [x for i, x in enumerate(_t) if i % 4 == 0 or x["mlen"] in (_rr - 1, _rr, _rr + 1, 2 * _rr + 1) and x["adlen"] in (0, 3, 5, _rr + 1)]
             TARGETS.append(dict(name="%s-%s-%s" % (_alg, _be, _r), inputs=gcm_inputs, run=gcm_run, affine=True,
-                                a=dict(spec=gcm_spec_out), b=dict(units=_aegis_units(_alg), entry=None), quick=_q,
-                                thorough=[x for x in _aegis_shapes(_alg, "thorough", _impl) if x["form"] in _forms and x not in _q]))
+                                a=dict(spec=gcm_spec_out), b=dict(units=_aegis_units(_alg), entry=None), quick=_q, thorough=_t))
 
 
 def params_of(t, tier):
